@@ -296,6 +296,7 @@ def cqm_case(ctx, r, B, spec):
               'header JSON text', rp)
         B.add(f'parsecnt cqm {F.hx(text)}', cqm_counts(hv), 'read_header + header use vs parseCqmHeader', ic, 'header counts parsed from the text', rp)
         eocd_case(ctx, B, data, 'ConstrainedQuadraticModel.from_file', ic, rp)
+        zip_case(ctx, B, data, hend, 'ConstrainedQuadraticModel.to_file', ic, rp)
         is_range = variables == list(range(len(variables)))
         lt = 'none' if is_range else F.hx(json.dumps(m.variables.to_serializable()).encode())
         vi = F.content_varinfo(m, np.float64)
@@ -398,6 +399,9 @@ def dqm_case(ctx, r, B, spec, combos=None):
             B.add(f'parsecnt dqm {F.hx(text)}', ('T' if hv['variables'] else 'F') + ' keys=5', 'read_header + header use vs parseDqmHeader', ic,
                   'variables flag parsed from the text', rp)
             eocd_case(ctx, B, npz, 'DiscreteQuadraticModel.from_file (npz blob)', ic, rp)
+            if len(npz) <= 40000:
+                zip_case(ctx, B, npz, 0, 'np.savez (DQM blob)', ic, rp, base=hend + 8)
+                npy_case(ctx, B, npz, 'DQM blob', ic, rp)
             eocd_case(ctx, B, data, 'DiscreteQuadraticModel.from_file (whole file)', ic, rp)
             vt = F.hx(F.vars_text(m.variables))
             lab = '1' if want['variables'] else '0'
@@ -740,6 +744,136 @@ def legacy_case(ctx, B, fn, data, cqm, rp):
           'loaded members, attributes and header check', rp)
 
 
+
+
+# ------------------------------------------------------------------ round 7: the ZIP container and the .npy members at byte level
+
+def zip_entries(arch):
+    """every member of the archive bytes `arch` (offsets relative to its start) as the driver's ZEntry wire text, from the
+    central directory (zipfile) and the raw local headers; returns (wire entries, inflate oracle, [(name, content)])"""
+    import struct
+    zf = zipfile.ZipFile(io.BytesIO(arch))
+    ents, oracle, members = [], [], []
+    for i in zf.infolist():
+        lh = arch[i.header_offset:i.header_offset + 30]
+        sig, lver, lver_hi, flags, method, tm, dt, crc, lcs, lus, nlen, elen = struct.unpack('<4s2B4HL2L2H', lh)
+        lextra = arch[i.header_offset + 30 + nlen:i.header_offset + 30 + nlen + elen]
+        start = i.header_offset + 30 + nlen + elen
+        stored = arch[start:start + i.compress_size]
+        content = zf.read(i.filename)
+        name = arch[i.header_offset + 30:i.header_offset + 30 + nlen]
+        if method != 0:
+            oracle.append(F.hx(stored) + ':' + F.hx(content))
+        ents.append('='.join([F.hx(name), F.hx(content), 's' if method == 0 else F.hx(stored), str(method), str(i.CRC), str(lver + 256 * lver_hi),
+                              str(i.create_version + 256 * i.create_system), str(i.flag_bits), str(tm), str(dt), str(lcs), str(lus),
+                              F.hx(lextra), F.hx(i.extra), str(i.internal_attr), str(i.external_attr)]))
+        members.append((name, content))
+    return ents, ','.join(oracle) or '-', members
+
+
+def zip_case(ctx, B, data, start, site, ic, rp, base=None):
+    """the archive that begins at offset `start` of `data`: (i) the byte-level writer `zipBytes` reproduces it from its
+    entries, (ii) the byte-level reader (`_EndRecData`, directory walk, local headers, real CRC-32; deflate by table)
+    reads the members out of the WHOLE file"""
+    arch = data[start:]
+    try:
+        ents, oracle, members = zip_entries(data)       # offsets as zipfile sees them in these bytes (shifted by `concat`)
+    except Exception as e:  # noqa
+        ctx.fail('property', site, ic, f'zipfile cannot list the archive just written: {type(e).__name__}: {e}', repro=rp)
+        return
+    ctx.tick(f'zip bytes: {len(members)} members, ' + ('deflated' if oracle != '-' else 'stored'))
+    # `base`: the file position the archive was WRITTEN at (its recorded offsets are absolute): `start` for a CQM file, the
+    # position of the BIAS payload for the npz blob of a DQM file (which np.load is handed on its own: negative `concat`)
+    B.add(f'zipwrite {start if base is None else base} {";".join(ents)}', F.hx(arch), f'zipfile (writer) vs zipBytes [{site}]', ic,
+          'archive bytes: local headers, central directory, end record', rp)
+    B.add(f'zipread {F.hx(data)} {oracle}', ','.join(F.hx(n) + '=' + F.hx(c) for n, c in members) or '-',
+          f'zipfile (reader) vs readDirBytes [{site}]', ic, 'members read from the whole file', rp)
+
+
+def npy_case(ctx, B, blob, site, ic, rp):
+    """every `.npy` member of an `.npz` blob: header bytes by `npyHeader`, parse by `parseNpy`"""
+    zf = zipfile.ZipFile(io.BytesIO(blob))
+    from numpy.lib import format as npf
+    for name in zf.namelist():
+        b = zf.read(name)
+        f = io.BytesIO(b)
+        ver = npf.read_magic(f)
+        shape, fortran, dtype = npf.read_array_header_1_0(f) if ver == (1, 0) else npf.read_array_header_2_0(f)
+        hlen = f.tell()
+        sh = '.'.join(map(str, shape)) or '-'
+        ctx.tick(f'npy member {name}: version {ver[0]}.{ver[1]} rank {len(shape)}')
+        B.add(f'npyhdr {dtype.str} {sh}', F.hx(b[:hlen]), f'numpy.lib.format.write_array_header vs npyHeader [{site}]', ic, f'header of {name}', rp)
+        B.add(f'npyparse {F.hx(b)}', f'{dtype.str}:{sh}:{F.hx(b[hlen:])}', f'numpy.lib.format.read_array vs parseNpy [{site}]', ic, f'member {name} parsed', rp)
+
+# ------------------------------------------------------------------ round 7: CQMs reached through histories
+
+def cqm_history_cases(ctx, r, n):
+    """CQMs that `set_objective` / `add_constraint` alone do not produce: expressions left WITHOUT variables but with a
+    non-zero offset (objective.offset assigned on a feasibility model; every objective variable fixed / removed), an
+    objective or a left-hand side whose variable keeps a zero bias, constraints whose lhs is reduced to a constant,
+    variables removed after constraints were added (indices shift), soft / discrete constraints after fixing.
+    Every writer option x loader entry point; property predicate only (the model files are covered by `cqm_case`)."""
+    for _ in range(n):
+        c = r.choice([0.5, -7.25, 5.0, 3.0])
+        steps = ["m = dimod.ConstrainedQuadraticModel()",
+                 "x, y, z = dimod.Binaries(['x', 'y', 'z'])",
+                 "i = dimod.Integer('i', lower_bound=-3, upper_bound=8)",
+                 "s = dimod.Spin('s')"]
+        how = r.choice(['offset assigned', 'all objective variables fixed', 'constant set_objective', 'zero-bias variable', 'mixed',
+                        'all objective variables fixed', 'offset assigned'])
+        if how == 'offset assigned':
+            steps += ["m.add_constraint(x + y == 1, label='pick one')", f"m.objective.offset = {c!r}"]
+        elif how == 'all objective variables fixed':
+            steps += [f"m.set_objective(2*x + {r.choice([1, -3])}*i + x*i + {c!r})", "m.add_constraint(y + z + s <= 2, label='c0')",
+                      "m.fix_variable('x', 1)", f"m.fix_variable('i', {r.choice([-3, 0, 8])})"]
+        elif how == 'constant set_objective':
+            steps += [f"m.set_objective(dimod.QuadraticModel() + {c!r})", "m.add_constraint(x + i >= 1, label=('t', 1))"]
+        elif how == 'zero-bias variable':
+            steps += [f"m.set_objective(0*x + {c!r})", "m.add_constraint(0*y + 0*z + i <= 3, label='zero')"]
+        else:
+            steps += [f"m.set_objective(x + y + {c!r})", "m.add_constraint(x + y + z == 1, label='d')",
+                      f"m.add_constraint(2*x - y <= 1, label='soft', weight={r.choice([0.5, 2.0])!r}, penalty='linear')",
+                      "m.fix_variable('x', 0)", "m.fix_variable('y', 1)"]
+        # optionally: a constraint whose lhs is reduced to a constant, and a variable removed from the model afterwards
+        if r.random() < .5:
+            steps += [f"m.add_constraint(z + {r.choice([1.5, -2.0])!r} <= 4, label='lhs-offset')"]
+            if r.random() < .5:
+                steps += ["m.fix_variable('z', 1)"]
+        if r.random() < .4:
+            steps += ["w = dimod.Binary('w')", "m.add_constraint(w + s >= 0, label='late')", "m.fix_variable('w', 0)"]
+        src = '\n'.join(steps) + '\n'
+        env = dict(dimod=dimod, np=np)
+        try:
+            exec(src, env)
+        except Exception as e:  # noqa -- a history dimod itself refuses is not a case
+            ctx.tick(f'cqm history refused: {type(e).__name__}')
+            continue
+        m = env['m']
+        empty_obj = m.objective.num_variables == 0
+        ctx.tick(f'cqm history: {how}' + (' (objective without variables, offset %s)' % ('non-zero' if m.objective.offset else 'zero') if empty_obj else ''))
+        for compress in (False, True):
+            for spool in (int(1e9), 0):
+                kw = f'compress={compress}, spool_size={spool}'
+                ctx.case(('cqm-history', src, kw), nontrivial=True)
+                data = m.to_file(compress=compress, spool_size=spool).read()
+                for name, (expr, fn) in LOADERS.items():
+                    if name not in ('from_file(bytes)', 'from_file(BytesIO)', 'fileview.load(bytes)', 'fileview.load(BytesIO)'):
+                        continue
+                    rp = (F.PRELUDE + F.SAME_SRC + src + f"data = m.to_file({kw}).read()\nnew = {expr.format(cls=F.CLS['cqm'])}\n"
+                          "d = diff_models('cqm', m, new)\nassert d is None, d\n")
+                    try:
+                        new = fn(dimod.ConstrainedQuadraticModel, data)
+                        d = F.diff_models('cqm', m, new)
+                    except Exception as e:  # noqa
+                        d = f'loading the file just written raised {type(e).__name__}: {e}'
+                    ctx.tick('property:ok' if d is None else 'property:DIFF')
+                    if d is not None:
+                        ic = ('cqm reached through a history: objective without variables and a non-zero offset' if empty_obj and m.objective.offset
+                              else f'cqm reached through a history: {how}')
+                        ctx.fail('property', 'ConstrainedQuadraticModel.to_file/from_file', ic,
+                                 f'{kw}, {name}: loaded model differs from the original: {d}', repro=rp, detail=dict(source=src))
+                        break
+
 # ------------------------------------------------------------------ driver
 
 def flush(ctx, B):
@@ -799,3 +933,4 @@ def run(ctx):
         B = Batch()
     dqm_long_vars_case(ctx, r, B)
     flush(ctx, B)
+    cqm_history_cases(ctx, r, ctx.scale(14, 200))
